@@ -82,7 +82,8 @@ func VerifC18Agreement() {
 	vx := vaxis.VerifBare(4, 2)
 	b := vx.NewStyledString(enc, vaxis.Style{})
 	vt := verifModel(4, 2)
-	vt.parser = ansi.NewParser(strings.NewReader(enc))
+	// text following the encoded string: every consumer is back at the default style
+	vt.parser = ansi.NewParser(strings.NewReader(enc + "x"))
 	for seq := range vt.parser.Next() {
 		if _, ok := seq.(ansi.EOF); ok {
 			break
@@ -96,6 +97,7 @@ func VerifC18Agreement() {
 		zzverif.Assert(verifSame(b.Cells[0].Style, c1.Style) && verifSame(b.Cells[1].Style, c2.Style), "NewStyledString-understands-encoder")
 		zzverif.Assert(verifSame(e1, c1.Style) && verifSame(e2, c2.Style), "embedded-terminal-understands-encoder")
 		zzverif.Assert(vt.activeScreen[0][0].Grapheme == "a" && vt.activeScreen[0][1].Grapheme == "b", "embedded-terminal-text")
+		zzverif.Assert(vt.activeScreen[0][2].Grapheme == "x" && verifSame(vt.activeScreen[0][2].Style, vaxis.Style{}), "embedded-terminal-is-reset-after-the-string")
 	}
 	zzverif.Reach("end")
 }
